@@ -8,7 +8,7 @@ lines per width (`L tok,tok; …` joined by `|`) and the verdict is the C16 orac
 (`Spec.Wrap`) evaluated on the implementation's lines. -/
 namespace VaxisModel.Driver.C16
 open VaxisModel.Driver VaxisModel.Model.Wrap
-open VaxisModel.Spec.Wrap (nonWs content natWidth trimTrailing lineWidthOK conserved hardBreakOK noNeedlessSplit)
+open VaxisModel.Spec.Wrap (nonWs content natWidth trimTrailing lineWidthOK conserved hardBreakOK noNeedlessSplit noTermInLines)
 
 structure Alpha where
   widths : Array Nat
@@ -63,9 +63,17 @@ def verdictFor (a : Alpha) (lb : Option (Nat → Nat → Bool)) (cells : List Ce
         s!"FAIL line_width w={width} line={i} trimmed-width={tw} shape={cls}"
       | none =>
         if !hardBreakOK cells ls then s!"FAIL hard_break w={width}"
-        else match lb with
-          | some lb => if noNeedlessSplit lb width cells ls then "ok" else s!"FAIL needless_split w={width}"
-          | none => "ok"
+        else if (match lb with
+          | some lb => !noNeedlessSplit lb width cells ls
+          | none => false) then s!"FAIL needless_split w={width}"
+        else if !noTermInLines ls then
+          -- a hard break that did not end its line (literal reading); shape: where the terminator sits
+          match ls.zipIdx.find? (fun p => p.1.any (·.term)) with
+          | some (l, i) =>
+            let shape := if (l.head?.map (·.term)).getD false && !(l.drop 1).any (·.term) then "leading" else "inner"
+            s!"FAIL terminator_in_line w={width} line={i} shape={shape}"
+          | none => s!"FAIL terminator_in_line w={width}"
+        else "ok"
 
 def firstFail (vs : List String) : String :=
   match vs.find? (· ≠ "ok") with
